@@ -187,3 +187,41 @@ def _c18_insert_point(case, observed):
     c, T, o, cl = _c18_ctx(case)
     p = op["from"]
     return all(t[0] == "o" for t in T[o + 1: p]) or all(t[0] == "c" for t in T[p: cl])
+
+
+def _node_marks_at(case):
+    from . import adapters
+    from .ref import positions as rp
+
+    c = adapters.Ctx(case["schema"], case["spec"]) if case.get("spec") else adapters.ctx(case["schema"])
+    ref = rp.RefDoc(c.model, case["doc"])
+    n = ref.node_at(ref.root, case["step"]["pos"])
+    return c, (n.marks if n is not None else [])
+
+
+@predicate("add-node-mark-displaces-unrestorable")
+def _c04_add_node_mark(case, observed):
+    """C04: AddNodeMarkStep whose mark displaces marks that re-adding one mark cannot bring back: two or more
+    displaced marks, or one displaced mark that does not itself exclude the new mark (asymmetric exclusion)."""
+    st = case.get("step") or {}
+    if st.get("stepType") != "addNodeMark":
+        return False
+    from .ref import marks as rmk
+
+    c, marks = _node_marks_at(case)
+    after = rmk.add(c.model, st["mark"], marks)
+    displaced = [m for m in marks if not rmk.in_set(m, after)]
+    if not displaced:
+        return False
+    return not (len(displaced) == 1 and c.model.mark_excludes(displaced[0]["type"], st["mark"]["type"]))
+
+
+@predicate("remove-node-mark-among-same-type-marks")
+def _c04_remove_node_mark(case, observed):
+    """C04: RemoveNodeMarkStep on a node carrying several marks of the removed mark's type (a type that does not
+    exclude itself): the inverse re-adds the mark after its same-rank siblings, so the order differs."""
+    st = case.get("step") or {}
+    if st.get("stepType") != "removeNodeMark":
+        return False
+    c, marks = _node_marks_at(case)
+    return sum(1 for m in marks if m["type"] == st["mark"]["type"]) >= 2
